@@ -191,6 +191,7 @@ func AddDeviations(t *rapid.T, set *ymodel.Set, o DevOpts) map[string]int {
 		trees[d.Name] = &yref.Tree{Module: d.Name, Root: &yref.XNode{Name: d.Name, Kind: "module", NS: d.Name, Children: map[string]*yref.XNode{}}}
 		// sometimes the deviations are written in a submodule of the deviating module
 		holder := d
+		holderPrefix := map[string]string{}
 		if rapid.IntRange(0, 3).Draw(t, "deviations-in-submodule") == 0 {
 			sub := &ymodel.Module{Name: d.Name + "-sub", IsSub: true, BelongsTo: d.Name, Prefix: d.Prefix, Imports: append([]ymodel.Import(nil), d.Imports...)}
 			d.Includes = append(d.Includes, sub.Name)
@@ -199,6 +200,23 @@ func AddDeviations(t *rapid.T, set *ymodel.Set, o DevOpts) map[string]int {
 			trees[sub.Name] = &yref.Tree{Module: sub.Name, Root: &yref.XNode{Name: sub.Name, Kind: "module", NS: d.Name, Children: map[string]*yref.XNode{}}}
 			holder = sub
 			labels["deviation/in-submodule"]++
+			// the submodule may call its imports by other prefixes than its module does: the module's prefixes,
+			// handed round by one place, so that each of them means another module here than there
+			if len(sub.Imports) >= 2 && rapid.Bool().Draw(t, "submodule-hands-the-prefixes-round") {
+				n := len(sub.Imports)
+				first := sub.Imports[0].Prefix
+				ren := map[string]string{}
+				for k := 0; k < n; k++ {
+					nw := first
+					if k < n-1 {
+						nw = d.Imports[k+1].Prefix
+					}
+					ren[d.Imports[k].Prefix] = nw
+					sub.Imports[k].Prefix = nw
+				}
+				holderPrefix = ren
+				labels["deviation/in-submodule-with-other-prefixes"]++
+			}
 		}
 		n := rapid.IntRange(1, o.Max).Draw(t, "deviations")
 		for i := 0; i < n; i++ {
@@ -281,6 +299,18 @@ func AddDeviations(t *rapid.T, set *ymodel.Set, o DevOpts) map[string]int {
 			}
 			touched[tg.Node][d.Name] = true
 			devPaths[d.Name] = append(devPaths[d.Name], tg.Path)
+			if holder != d && len(holderPrefix) > 0 {
+				// the path as the submodule's text has to spell it
+				steps := strings.Split(dev.Path, "/")
+				for k, st := range steps {
+					if i := strings.IndexByte(st, ':'); i > 0 {
+						if nw, ok := holderPrefix[st[:i]]; ok && nw != "" {
+							steps[k] = nw + st[i:]
+						}
+					}
+				}
+				dev.Path = strings.Join(steps, "/")
+			}
 			holder.Deviations = append(holder.Deviations, dev)
 		}
 	}
